@@ -428,6 +428,12 @@ def r3(repo, chk, prog):
     # the comparison is a conjunct of the test (not under `or`)
     conj = isinstance(st.test, ast.BoolOp) and isinstance(st.test.op, ast.And) and cmp_ in st.test.values or st.test is cmp_
     chk.ob("R3", "the tag comparison is a conjunct of the accepting condition", conj, "the comparison can be bypassed by another disjunct", rr.loc(st))
+    # the other conjuncts: a Retry is acted upon by a client, once, and only when addressed to this connection - a
+    # duplicated (or replayed: the Retry tag key is public) Retry must not restart the handshake a second time
+    conjs = [norm(v) for v in st.test.values] if isinstance(st.test, ast.BoolOp) and isinstance(st.test.op, ast.And) else []
+    incs = [s2 for s2, t2, v2 in rr.assigns(chain="self._retry_count") if isinstance(s2, ast.AugAssign) and isinstance(s2.op, ast.Add) and inside(s2, st) and not any(inside(s2, o) for o in st.orelse)]
+    ok = "self._is_client" in conjs and "not self._retry_count" in conjs and "header.destination_cid == self.host_cid" in conjs and len(incs) == 1
+    chk.ob("R3", "a Retry is processed only by a client, only once (the counter it tests is incremented in the accepting branch) and only when it names this connection's source ID", ok, f"conjuncts {conjs}, increments {len(incs)}", rr.loc(st))
     a = [norm(x) for x in call.args] + [f"{k.arg}={norm(k.value)}" for k in call.keywords]
     ok = len(call.args) >= 2 and a[0] == "packet_without_tag" and a[1] == "self._peer_cid.cid" and ("version=header.version" in a or (len(a) > 2 and a[2] == "header.version"))
     chk.ob("R3", "the tag is computed over the received packet minus its tag, the original destination CID and the packet's version", ok, f"arguments {a}", rr.loc(call))
